@@ -80,8 +80,11 @@ Definition perr_eqb (a b : perr) : bool :=
 Definition value_lit_ok (v : Traceql.value) : bool :=
   match fmt_f_dec (v_f v) with Some _ => lit_exact v | None => true end.
 Definition agg_lit_ok (g : aggregator) : bool :=
-  if String.eqb (g_attr g) "duration" then true
-  else match fmt_f_dec (g_num g ++ g_meas g) with Some _ => agg_lit_exact g | None => true end.
+  if String.eqb (g_attr g) "duration" then
+    match parse_duration_dec (g_num g ++ g_meas g) with Some (Some _) => agg_guard g && agg_lit_exact g | _ => true end
+  else match fmt_f_dec (g_num g ++ g_meas g) with
+       | Some _ => agg_lit_exact g && (if String.eqb (g_meas g) "" then agg_guard g else true)
+       | None => true end.
 Fixpoint exp_lits_ok (e : attr_exp) : bool :=
   match e with
   | AExp h _ tl =>
